@@ -19,17 +19,18 @@ HTTP7 == <<104,116,116,112,58,47,47>>
 UnqBytes(w) == Decode(w)
 UnqText(w) == LET it == U8Items(Decode(w)) IN [i \in 1..Len(it) |-> IF it[i].ok THEN it[i].c ELSE 65533]
 
-\* ---- the parameter search: (?:^|[?&])(key)=([^&]+), leftmost match at or after `from`
+\* ---- the parameter search: (?:^|[?&])(key)=([^&#]+), leftmost match at or after `from`
 KeyAt(s, i) ==        \* index into RKeys of the key matching at position i (0 = none)
   MinOr0({k \in 1..Len(RKeys) :
             LET key == RKeys[k] n == Len(key) IN
             /\ i + n + 1 <= Len(s) /\ Lower(SubSeq(s, i, i + n - 1)) = key
-            /\ s[i + n] = 61 /\ s[i + n + 1] # 38})
+            /\ s[i + n] = 61 /\ s[i + n + 1] \notin {38, 35}})
 IsParamStart(s, i) == i = 1 \/ s[i - 1] \in {63, 38}
 FirstParam(s, from) == MinOr0({i \in (IF from < 1 THEN 1 ELSE from)..Len(s) : IsParamStart(s, i) /\ KeyAt(s, i) # 0})
 ParamKeyText(s, i) == SubSeq(s, i, i + Len(RKeys[KeyAt(s, i)]) - 1)
+\* the value stops at the next '&' or at the '#' of the outer URL
 ParamValue(s, i) == LET a == i + Len(RKeys[KeyAt(s, i)]) + 1
-                        e == FirstPosFrom(s, 38, a)
+                        e == MinOr0({j \in a..Len(s) : s[j] \in {38, 35}})
                     IN SubSeq(s, a, IF e = 0 THEN Len(s) ELSE e - 1)
 
 \* where the authority ends: (scheme:)?//authority
@@ -51,9 +52,20 @@ MarkerEndAt(s, i) ==
 FirstMarker(s) == MinOr0({i \in 1..Len(s) : MarkerEndAt(s, i) # 0})
 
 Origin(s) == LET e == AuthorityEnd(s) IN SubSeq(s, 1, e)
-JoinRel(base, t) ==    \* urljoin(base, t) for t starting with '/' and free of dot segments
-  IF StartsWith(t, <<47, 47>>) THEN (LET sp == Split(base) IN IF sp.scheme # <<>> THEN sp.scheme \o <<58>> \o t ELSE t)
+\* urljoin(base, t) for a base WITH protocol (or '//') and t starting with '/' and free of dot segments
+JoinAbs(base, t) ==
+  IF StartsWith(t, <<47, 47>>)
+  THEN LET sb == Split(base)
+           st == Split(<<120, 58>> \o t)                        \* 'x:' + t : the reference's own netloc / path / query / fragment
+       IN IF st.netloc # <<>> \/ st.path # <<>>
+          THEN (IF sb.scheme # <<>> THEN sb.scheme \o <<58>> \o t ELSE t)
+          \* '//', '//?q', '//#f': no host and no path - the base keeps its own, takes the reference's query (if any) and fragment
+          ELSE Unsplit(sb.scheme, sb.netloc, sb.path, IF Has(t, 63) THEN st.query ELSE sb.query, st.fragment)
+               \o (IF st.fragment = <<>> /\ Has(t, 35) THEN <<>> ELSE <<>>)
   ELSE Origin(base) \o t
+\* a base without protocol is joined as if it had one (urljoin would drop its host)
+HasAuthorityPrefix(s) == AuthorityEnd(s) # 0
+JoinRel(base, t) == IF HasAuthorityPrefix(base) THEN JoinAbs(base, t) ELSE From(JoinAbs(HTTP7 \o base, t), 8)
 
 \* ---- one inference step (reference)
 Step(u) ==
@@ -66,7 +78,8 @@ Step(u) ==
             IN IF isq /\ ~HasSub(u, <<47,117,114,108,63,113,61>>) /\ ~HasSub(u, <<47,114,101,100,105,114,101,99,116>>) THEN u
                ELSE IF StartsWith(t, HTTPS8) /\ Len(t) > 8 THEN t
                ELSE IF StartsWith(t, HTTP7) /\ Len(t) > 7 THEN t
-               ELSE IF t # <<>> /\ t[1] = 47 THEN JoinRel(u, t)
+               \* a joined target that is not shorter than the URL is not followed ('//' joins to the URL itself)
+               ELSE IF t # <<>> /\ t[1] = 47 THEN (LET j == JoinRel(u, t) IN IF Len(j) >= Len(u) THEN u ELSE j)
                ELSE IF HasSub(u, <<121,111,117,116,117,98,101,46,99,111,109,47,114,101,100,105,114,101,99,116,63>>) THEN HTTPS8 \o t
                ELSE u
 
